@@ -1,5 +1,7 @@
 """C03 — output independent of chunking, pausing and resuming (DESIGN 4.C03)."""
+import re
 from lib import machine as mc
+import re
 from lib.mir import AnchorMissing
 from . import tokrules as tr
 from . import nf_common
@@ -99,7 +101,43 @@ def r03_7(ctx):
     ctx.floor("R03.7", "table-text-paths", n, 2)
 
 
+def r03_13(ctx):
+    """process_to_completion, SplitWhitespace: only the run that was actually cut off the front of the text is labelled
+    (Whitespace / NotWhitespace, by the run's own class); what remains is queued as NotSplit - it has not been looked at, it may
+    contain more whitespace, and the modes that drop or keep whitespace must see it split again"""
+    from . import nfq
+    key, pcs = nfq.cells(ctx, "html_tree_builder", "::process_to_completion")
+    bad = None
+    n = 0
+    for pc in nfq.feasible(pcs):
+        if not any(v and "matches SplitWhitespace(_)" in g for g, v in pc["guards"].items()):
+            continue
+        acts = [(a, tuple(str(x) for x in args)) for a, args in pc["actions"]]
+        if "panic!" in [a for a, _ in acts]:
+            continue
+        n += 1
+        for a, args in acts:
+            if re.search(r"\.(push_back|push_front|push|insert)$", a) and args and "Characters(" in args[-1]:
+                m = re.match(r"Characters\((\w+),", args[-1])
+                if not m or m.group(1) != "NotSplit":
+                    bad = "the rest of a split character token is queued as %s: it has not been examined - whitespace inside it is then treated like the first character after the run (dropped or kept wholesale), and how much of it there is depends on where the tokenizer cut the text" % (m.group(1) if m else args[-1][:40])
+        ends = [args for a, args in acts if a == "loop-end"]
+        isws = [v for g, v in pc["guards"].items() if re.search(r"pop_front_char_run\(.*\)\.0\.1$", re.sub(r"#\d+$", "", g))]
+        cur = [c for c in (ends[-1][1:] if ends else ()) if c.startswith("Characters(")]
+        if cur and isws:
+            m = re.match(r"Characters\((\w+),(.*)$", cur[0])
+            want = "Whitespace" if isws[-1] else "NotWhitespace"
+            if not m or m.group(1) != want or "pop_front_char_run" not in m.group(2):
+                bad = "the run cut off the front is labelled %s although its class is %s" % (m.group(1) if m else "?", want)
+    ctx.ob("R03.13", "split-labels-only-the-run", bad is None and n >= 4, bad or "%d split paths: run labelled by its own class, remainder queued NotSplit" % n, "html5ever tree_builder process_to_completion")
+
+
 def run(ctx):
+    ctx.rule("R03.14", "run() passes every answer of step() on unchanged (a pause is never reported as Done), in the profiling loop too")
+    for _w in ("html", "xml"):
+        ctx.guard("R03.14", "run/" + _w, lambda _w=_w: tr.run_maps_step_results(ctx, "R03.14", _w))
+    ctx.rule("R03.13", "splitting a character token labels only the run cut off its front; the remainder stays NotSplit")
+    ctx.guard("R03.13", "split-labels", lambda: r03_13(ctx))
     ctx.rule("R03.12", "the drivers feed the tokenizer until it is done, so where a chunk ends relative to a script end tag does not matter")
     ctx.guard("R03.12", "driver/html", lambda: tr.driver_feeds_until_done(ctx, "R03.12", "html_driver", "::loop_until_done", "html5ever driver loop_until_done"))
     ctx.guard("R03.12", "driver/xml", lambda: tr.driver_feeds_until_done(ctx, "R03.12", "xml_driver", "XmlParser<Sink>[TendrilSink<tendril::fmt::UTF8>]::process", "xml5ever driver process"))
